@@ -587,6 +587,34 @@ fn fri_constant(b: &Base) -> bool {
     b.pt.layers.iter().all(|l| rep(&l.0)) && b.pt.remainder.len() >= e && b.pt.remainder[e..].iter().all(|x| *x == 0)
 }
 
+/// only the partition count differs: in every FRI layer it either maps the folded queried positions to the same
+/// leaves as the original count, or the opened values of that layer are one repeated element (a constant layer,
+/// whose leaves all coincide) — what explains the acceptance of such a mutant
+fn partitions_explained_by_constant_layers(b: &Base, positions: &[usize], np1: u8, np2: u8) -> bool {
+    if np1 >= 64 || np2 >= 64 {
+        return false;
+    }
+    let (n1, n2) = (1usize << np1, 1usize << np2);
+    let o = &b.cfg.opts;
+    let e = elem_bytes(b.cfg.field) * o.ext as usize;
+    let rep = |blk: &[u8]| blk.len() >= e && blk.len() % e == 0 && blk.chunks(e).all(|c| c == &blk[..e]);
+    let lde = b.cfg.desc.trace_len * o.blowup;
+    let layers = o.to_options().to_fri_options().num_fri_layers(lde);
+    let mut dom = lde;
+    let mut pos = positions.to_vec();
+    for i in 0..layers {
+        let folded = fold_positions(&pos, dom, o.folding);
+        let same = map_positions_to_indexes(&folded, dom, o.folding, n1) == map_positions_to_indexes(&folded, dom, o.folding, n2);
+        let constant = b.pt.layers.get(i).map(|l| rep(&l.0)).unwrap_or(false);
+        if !same && !constant {
+            return false;
+        }
+        pos = folded;
+        dom /= o.folding;
+    }
+    true
+}
+
 fn partitions_equivalent(b: &Base, positions: &[usize], np1: u8, np2: u8) -> bool {
     if np1 >= 64 || np2 >= 64 {
         return false;
@@ -710,6 +738,7 @@ fn judge(b: &Base, t: &mut Tally, mutant: &[u8], what: &str, hint: &'static str)
                 return;
             }
             // exemption: only the partition count differs and it maps the queried positions identically
+            let mut partition_constant_layers = false;
             if let Some(x) = &pt2 {
                 let mut y = x.clone();
                 y.num_partitions = b.pt.num_partitions;
@@ -721,6 +750,7 @@ fn judge(b: &Base, t: &mut Tally, mutant: &[u8], what: &str, hint: &'static str)
                         t.exempt += 1;
                         return;
                     }
+                    partition_constant_layers = partitions_explained_by_constant_layers(b, &pos, b.pt.num_partitions, np2);
                 }
             }
             t.accepted += 1;
@@ -729,9 +759,10 @@ fn judge(b: &Base, t: &mut Tally, mutant: &[u8], what: &str, hint: &'static str)
                 // transcript / positions / layout is then not bound by anything (distinct site)
                 if b.constant_trace && ["context.options", "pow_nonce"].contains(&comp) {
                     format!("c03.accepted-mutation.{}.constant-trace", comp)
-                } else if comp == "fri.num_partitions" && fri_constant(b) {
-                    // every FRI layer is one repeated value (constant DEEP composition): all leaves of the
-                    // layer trees coincide, whichever leaf a partition count selects
+                } else if comp == "fri.num_partitions" && partition_constant_layers {
+                    // in every FRI layer the partition count either selects the same leaves or the layer is one
+                    // repeated value (the folded DEEP composition has become a constant there): all leaves of
+                    // such a layer tree coincide, whichever leaf a partition count selects
                     "c03.accepted-mutation.fri.num_partitions.constant-fri".to_string()
                 } else {
                     format!("c03.accepted-mutation.{}", comp)
